@@ -106,6 +106,16 @@ func buildTextTemplates() []textTemplate {
 			_, err := starlark.ExecFileOptions(&syntax.FileOptions{}, c.thread, "lit.star", "x = \""+s+"\"\ny = b\""+s+"\"\n", nil)
 			return starlark.None, err
 		}},
+		{"starlark.Eval(s)", func(c *cctx, s string) (starlark.Value, error) { // the text as an expression
+			return starlark.EvalOptions(&syntax.FileOptions{Set: true}, c.thread, "expr.star", s, starlark.StringDict{"f": c.fns["fv"], "q": starlark.NewList(nil), "p": starlark.True, "x": starlark.MakeInt(1)})
+		}},
+		{"ExecFile(y = s)", func(c *cctx, s string) (starlark.Value, error) { // the text as the right-hand side of a statement
+			_, err := starlark.ExecFileOptions(&syntax.FileOptions{Set: true, GlobalReassign: true}, c.thread, "stmt.star", "q = []\np = 1\nx = 1\ndef f(*a, **k): return a\ny = "+s+"\n", nil)
+			return starlark.None, err
+		}},
+		{"s % {a, b, k}", func(c *cctx, s string) (starlark.Value, error) { // every %(key) of the documents is present
+			return percentWith(s, mkDict(starlark.String("a"), starlark.MakeInt(1), starlark.String("b"), starlark.MakeInt(66), starlark.String("k"), starlark.String("v")))
+		}},
 		{"bytes(s).elems / str ops", func(c *cctx, s string) (starlark.Value, error) {
 			return callNamed(c, method(starlark.String(s), "codepoint_ords"), nil)
 		}},
@@ -178,6 +188,9 @@ func buildTextTemplates() []textTemplate {
 		starlark.Binary(syntax.LTLT, starlark.MakeInt(1), starlark.MakeBigInt(z))
 		return callNamed(c, starlark.Universe["range"], starlark.Tuple{starlark.MakeBigInt(z), starlark.MakeBigInt(new(big.Int).Neg(z)), starlark.MakeBigInt(new(big.Int).Neg(z))})
 	}})
+	for _, n := range []string{"time.from_timestamp(int(s))", "time.time(year=int(s))", "chr(int(s)) / range / repeat"} {
+		digitsOnly[n] = true
+	}
 	return ts
 }
 
@@ -208,16 +221,76 @@ var truncDocs = []string{
 	`{0} {1!r:>{3[0]}} {a.b} {k:<5} {{literal}} {2:.3f} {3[1]}`,
 	`%s %r %d %5d %-5x %o %X %e %.3f %g %c %% %(a)s %(a)05d`,
 	`1h2m3.5s4ms5us6ns`, `-1.5h`, `2020-01-02T03:04:05.678901+07:00`, `Mon, 02 Jan 2006 15:04:05 -0700`, `2006-01-02 15:04:05.000000000 Z07:00 MST Jan _2 pm PM`,
+	`%(a)s and %(b)5d and %(a)r %(b).2f`, `{k} {a.b!r:>7} {k:{k}}`, `%(a)s%(b)c%%`, `x%(k)s`, `{a.b}{k!r}`,
+	`(lambda a, b=1, *c, **d: [x for x in (a, b) if x] or {a: b})(1, *[2], **{"k": 3})`,
+	`[f(x, y=1, *a, **k)[1:2:3].g for x, (y, z) in q if x not in y if z] + (lambda *a: a)(0) if p else -~x ** 2`,
 	`America/Argentina/Buenos_Aires`, `0x7fffffffffffffff`, `1.7976931348623157e308`, `a\x41\n\101\u00e9\U0001F600\'\"\\z`, "line\\\ncontinued",
 }
 
-func truncations() []string {
-	seen := map[string]bool{}
+// lexTokens splits a text into identifier / number runs, the multi-character
+// operators of the language and single characters.
+func lexTokens(s string) []string {
+	ops := []string{"**=", "//=", "<<=", ">>=", "**", "//", "<<", ">>", "==", "!=", "<=", ">=", "+=", "-=", "*=", "/=", "%=", "&=", "|=", "^=", "%(", "\\\\", "\\\"", "\"\"\"", "'''"}
 	var out []string
+	for i := 0; i < len(s); {
+		c := s[i]
+		isW := func(c byte) bool {
+			return c == '_' || c >= '0' && c <= '9' || c >= 'a' && c <= 'z' || c >= 'A' && c <= 'Z' || c >= 0x80
+		}
+		if isW(c) {
+			j := i
+			for j < len(s) && isW(s[j]) {
+				j++
+			}
+			out = append(out, s[i:j])
+			i = j
+			continue
+		}
+		matched := false
+		for _, op := range ops {
+			if strings.HasPrefix(s[i:], op) {
+				out = append(out, op)
+				i += len(op)
+				matched = true
+				break
+			}
+		}
+		if !matched {
+			out = append(out, s[i:i+1])
+			i++
+		}
+	}
+	return out
+}
+
+// tokenVariants: the text with each single token deleted, and with each single token doubled.
+func tokenVariants(s string) []string {
+	toks := lexTokens(s)
+	var out []string
+	for i := range toks {
+		if toks[i] == " " {
+			continue
+		}
+		out = append(out, strings.Join(toks[:i], "")+strings.Join(toks[i+1:], ""))
+		out = append(out, strings.Join(toks[:i+1], "")+strings.Join(toks[i:], ""))
+	}
+	return out
+}
+
+// truncations returns all strings; the first nBasic are prefixes / suffixes / byte deletions (for every
+// decoder), the rest are substrings and token variants (for the template, expression and JSON parsers).
+func truncations() (all []string, nBasic int) {
+	seen := map[string]bool{}
+	var out, extra []string
+	toExtra := false
 	add := func(s string) {
 		if !seen[s] {
 			seen[s] = true
-			out = append(out, s)
+			if toExtra {
+				extra = append(extra, s)
+			} else {
+				out = append(out, s)
+			}
 		}
 	}
 	docs := append([]string(nil), truncDocs...)
@@ -241,6 +314,24 @@ func truncations() []string {
 				add(d[:i-1] + d[i:])
 			}
 		}
+		toExtra = true
+		if len(d) <= 40 { // and every substring of the short ones
+			for i := 1; i < len(d); i++ {
+				for j := i + 1; j < len(d); j++ {
+					add(d[i:j])
+				}
+			}
+		}
+		if len(d) < 200 && !strings.HasPrefix(d, "!sky") { // every single token deleted / doubled
+			for _, v := range tokenVariants(d) {
+				add(v)
+			}
+		}
+		toExtra = false
 	}
-	return out
+	return append(out, extra...), len(out)
 }
+
+// the parsers of templates, expressions and documents: they also get the substrings and token variants
+var wantsExtra = map[string]bool{"format(s)": true, "s % (1,)": true, "s % {..}": true, "s % {a, b, k}": true, "json.decode(s)": true,
+	"starlark.Eval(s)": true, "ExecFile(y = s)": true, "syntax.Parse(x = \"s\")": true}
